@@ -26,6 +26,15 @@ UPGRADES = ["websocket", "WebSocket", "WEBSOCKET", "wEbSoCkEt", "h2c", "websocke
 # names of the two critical headers that are NOT those names although a lenient reading trims them to it
 ODD_NAMES = ["Upgrade\xc2\xa0", "\xe2\x80\x83Upgrade", "Upgrade\xa0", "Sec-WebSoc\xe2\x84\xaaet-Accept", "Sec-WebSocket-Accept\xc2\xa0",
              "Sec-WebSocket-Accept\x85"]
+# the accepted extension as the server may spell it (RFC 6455 9.1 takes its ABNF from RFC 2616: linear white space may
+# surround ";" and "="); whatever the parameters, Ready reports the extension by its token
+EXT_SPELLINGS = ["permessage-deflate", "permessage-deflate; server_no_context_takeover",
+                 "permessage-deflate ; server_no_context_takeover", "permessage-deflate\t;client_max_window_bits=10",
+                 "permessage-deflate;server_max_window_bits=12 ; client_no_context_takeover",
+                 "permessage-deflate  ;  client_no_context_takeover  ;  server_no_context_takeover",
+                 "permessage-deflate; client_max_window_bits = 12", 'permessage-deflate; server_max_window_bits="10"',
+                 "permessage-deflate;", "permessage-deflate ;", "permessage-deflate; server_no_context_takeover;",
+                 "permessage-deflate;client_no_context_takeover;server_max_window_bits=9;client_max_window_bits=9"]
 DUP_NAMES = ["Upgrade", "upgrade", "UPGRADE", "uPgRaDe", "Sec-WebSocket-Accept", "sec-websocket-accept",
              "SEC-WEBSOCKET-ACCEPT", "Sec-Websocket-accept"]
 REASONS = ["Switching Protocols", "", "OK", "Web Socket Protocol Handshake", "Forbidden", "x y z", "{}", "{0} %s {x!r}"]
@@ -156,6 +165,8 @@ class C10(Prop):
                                 st.sampled_from([16384, 16385, 20000, 70000])),
             "terminate": gen.weighted([(6, st.just(True)), (1, st.just(False))]),
             "deflate": st.booleans(),
+            # how the server spells the extension it accepted (parameters, white space around ";")
+            "ext_spelling": st.integers(0, 11),
             "dups": gen.weighted([(5, st.just([])), (1, st.lists(st.one_of(
                 st.fixed_dictionaries({"name": st.sampled_from(DUP_NAMES[:4]), "value": st.sampled_from(UPGRADES[4:] + ["websocket"]),
                                        "first": st.booleans()}),
@@ -195,6 +206,20 @@ class C10(Prop):
                                    "key": "000102030405060708090a0b0c0d0e0f", "key2": None, "seg": "whole",
                                    "reply": {"status": status, "upgrade": up, "accept": a, "terminate": True,
                                              "reason": reason}}
+        def extension_spellings():
+            for i in range(len(EXT_SPELLINGS)):
+                nspaces = EXT_SPELLINGS[i].count(" ")
+                for fold in [None] + list(range(min(nspaces, 3))):
+                    for casing in range(4):
+                        for ows in ([" ", ""], ["", " "], ["\t", "\t"]):
+                            reply = {"status": 101, "upgrade": "websocket", "accept": "correct", "terminate": True, "deflate": True,
+                                     "ext_spelling": i, "casing": [casing], "ows": [ows]}
+                            if fold is not None:
+                                reply["folds"] = [3]       # the extensions header is the fourth one
+                            yield {"url": {"scheme": "ws", "host": "example.test", "port": None, "path": "/", "query": ""},
+                                   "protocols": [], "headers": [], "agent": None, "compress": True,
+                                   "key": "000102030405060708090a0b0c0d0e0f", "key2": None, "seg": "whole", "reply": reply}
+
         def odd_names():
             for name in ODD_NAMES:
                 for casing in range(4):
@@ -285,6 +310,7 @@ class C10(Prop):
                 Enumeration("malformed_status_lines", odd_status_lines, exhaustive=True),
                 Enumeration("accept_x_upgrade_x_status", accepts, exhaustive=True),
                 Enumeration("critical_header_names_that_only_look_right", odd_names, exhaustive=True),
+                Enumeration("accepted_extension_spellings", extension_spellings, exhaustive=True),
                 Enumeration("header_spellings", spellings, exhaustive=True), after_every_prelude(battery), with_debug_log(battery),
                 with_companion(battery)]
 
@@ -293,7 +319,7 @@ class C10(Prop):
         url = build_url(u)
         r = dict(case["reply"])
         if r.get("deflate") and case["compress"]:
-            r["extensions"] = ["permessage-deflate"]
+            r["extensions"] = [EXT_SPELLINGS[r.get("ext_spelling", 0) % len(EXT_SPELLINGS)]]
         spec = reply_spec(r)
         keys = ["ffffffffffffffffffffffffffffffff", case["key"]]
         if case.get("key2"):
